@@ -13,6 +13,7 @@ import (
 
 // Env evaluates contract terms into SMT terms.
 type Env struct {
+	headState *State
 	vc    *VC
 	roots map[string]SV
 	cur   *State
@@ -223,6 +224,18 @@ func (e *Env) evalT(s *Sexp) (string, types.Type, error) {
 			return id, nil, nil
 		}
 		return fmt.Sprintf("(mk-Iface %d %s)", vc.tid(types.NewPointer(p.typ)), id), nil, nil
+	case "head":
+		// (head X): X as it was at the head of the current loop iteration (only in step clauses)
+		if e.headState == nil || len(s.List) != 2 {
+			return "", nil, fmt.Errorf("(head X) is only available in loop step clauses")
+		}
+		savedCur := e.cur
+		e.cur = e.headState
+		e.frame.useHeadVals = true
+		t, ty, err := e.evalT(s.List[1])
+		e.frame.useHeadVals = false
+		e.cur = savedCur
+		return t, ty, err
 	case "fresh":
 		t, _, err := e.evalT(s.List[1])
 		if err != nil {
@@ -417,6 +430,9 @@ func (e *Env) atom(a string) (string, types.Type, error) {
 	if ok {
 		return t, ty, nil
 	}
+	if strings.HasPrefix(a, "phi:") || strings.HasSuffix(strings.SplitN(a, ".", 2)[0], "@0") {
+		return "", nil, fmt.Errorf("%s is not in scope here", a)
+	}
 	return a, nil, nil
 }
 
@@ -459,6 +475,14 @@ func splitPath(a string) (string, []string) {
 
 // lookupRoot finds the value bound to a root name.
 func (e *Env) lookupRoot(name string) (SV, bool) {
+	if strings.HasPrefix(name, "phi:") { // the loop-carried variable of that name, not the parameter
+		if e.frame != nil {
+			if sv, ok := e.frame.lookupLocal(strings.TrimPrefix(name, "phi:")); ok {
+				return sv, true
+			}
+		}
+		return SV{}, false
+	}
 	if strings.HasSuffix(name, "@0") { // entry value of a parameter, also inside loops that reassign it
 		sv, ok := e.roots[strings.TrimSuffix(name, "@0")]
 		return sv, ok
@@ -712,6 +736,11 @@ func (f *Frame) lookupLocal(name string) (SV, bool) {
 		}
 	}
 	if best != nil {
+		if f.useHeadVals && f.headVals != nil {
+			if hv, ok := f.headVals[best.(*ssa.Phi)]; ok {
+				return hv, true
+			}
+		}
 		return f.vals[best], true
 	}
 	if f.namedVals == nil {
@@ -719,7 +748,12 @@ func (f *Frame) lookupLocal(name string) (SV, bool) {
 		amb := map[string]bool{}
 		for _, b := range f.fn.Blocks {
 			for _, ins := range b.Instrs {
-				if d, ok := ins.(*ssa.DebugRef); ok && !d.IsAddr {
+				if d, ok := ins.(*ssa.DebugRef); ok {
+					if d.IsAddr {
+						if _, isAlloc := d.X.(*ssa.Alloc); !isAlloc {
+							continue
+						}
+					}
 					if id, ok := d.Expr.(interface{ String() string }); ok {
 						_ = id
 					}
@@ -774,6 +808,11 @@ func (f *Frame) lookupLoopPhi(name string) (SV, bool) {
 		}
 	}
 	if best != nil {
+		if f.useHeadVals && f.headVals != nil {
+			if hv, ok := f.headVals[best.(*ssa.Phi)]; ok {
+				return hv, true
+			}
+		}
 		return f.vals[best], true
 	}
 	return SV{}, false
